@@ -112,13 +112,15 @@ pub struct PayMonitor {
 	rs: HashMap<usize, R>,
 	dur: HashMap<(usize, ChannelId), Dur>,
 	restarted: BTreeSet<usize>,
+	/// nodes that restarted from a stored (older) ChannelManager at some point
+	stale_restarted: BTreeSet<usize>,
 	ticks: HashMap<usize, u64>,
 	final_settle: bool,
 }
 
 impl PayMonitor {
 	pub fn new() -> Self {
-		PayMonitor { models: HashMap::new(), hs: vec![], key: HashMap::new(), ps: HashMap::new(), rs: HashMap::new(), dur: HashMap::new(), restarted: BTreeSet::new(), ticks: HashMap::new(), final_settle: false }
+		PayMonitor { models: HashMap::new(), hs: vec![], key: HashMap::new(), ps: HashMap::new(), rs: HashMap::new(), dur: HashMap::new(), restarted: BTreeSet::new(), stale_restarted: BTreeSet::new(), ticks: HashMap::new(), final_settle: false }
 	}
 	fn phase(&self, h: &H) -> HtlcPhase {
 		self.models.get(&h.chan).map(|m| m.phase(h.owner, h.id)).unwrap_or(HtlcPhase::Unknown)
@@ -177,6 +179,9 @@ impl Monitor for PayMonitor {
 		match o {
 			Obs::Restarted { node, snapshot_step, .. } => {
 				self.restarted.insert(*node);
+				if snapshot_step.is_some() {
+					self.stale_restarted.insert(*node);
+				}
 				if let Some(ss) = snapshot_step {
 					let live: std::collections::HashSet<usize> = self.ps.iter().filter(|(_, p)| p.htlcs.iter().flatten().any(|i| {
 						let h = &self.hs[*i];
@@ -596,7 +601,12 @@ impl Monitor for PayMonitor {
 				let in_flight = hts.iter().any(|h| !matches!(self.phase(h), HtlcPhase::Resolved { .. }));
 				let claimable_waiting = w.claimable.iter().any(|c| c.hash == rec.hash);
 				v.rep.count("c03_p3_pending_payments_checked");
-				if !in_flight && !claimable_waiting && hts.len() < p.htlcs.len() && all_gone {
+				if !in_flight && !claimable_waiting && hts.len() < p.htlcs.len() && all_gone && self.stale_restarted.contains(&rec.src) {
+					// (known finding F25: the sender restarted from a stored manager, its channel stopped moving and the
+					// HTLC never leaves the holding cell; without such a restart the plain signature below applies)
+					v.rep.count("c03_p3_pending_payments_of_a_sender_restarted_from_a_stored_manager");
+					v.violation("C03", "P3-failed-when-nothing-pending", "a payment is listed as pending although none of its HTLCs exists any more, the sender having restarted from a stored ChannelManager since", format!("node{} payment#{} class {} parts sent {}/{}", rec.src, pi, rec.class, hts.len(), p.htlcs.len()));
+				} else if !in_flight && !claimable_waiting && hts.len() < p.htlcs.len() && all_gone {
 					v.violation("C03", "P3-failed-when-nothing-pending", "a payment is listed as pending although none of its HTLCs exists any more", format!("node{} payment#{} class {} parts sent {}/{}", rec.src, pi, rec.class, hts.len(), p.htlcs.len()));
 				}
 			}
@@ -636,7 +646,7 @@ impl Monitor for PayMonitor {
 					}
 					// (known finding F25 has its own signature: the peer that offered the HTLC restarted from a stored manager
 					// and its channel stopped moving; every other way of not settling a claimed payment keeps the plain one)
-					let peer_restarted = r.claimable_set.iter().any(|i| self.restarted.contains(&self.hs[*i].from));
+					let peer_restarted = r.claimable_set.iter().any(|i| self.stale_restarted.contains(&self.hs[*i].from));
 					if n_ful != phases.len() && peer_restarted {
 						v.rep.count("c04_i2_unsettled_claims_with_a_restarted_offering_peer");
 						v.violation("C04", "I2-claim-window", "claim_funds was called below the claim deadline but not every part was fulfilled, the peer that offered the HTLC having restarted from a stored ChannelManager since", format!("node{} reg {}: {} of {} parts fulfilled (claim height {}, deadline {})", reg.dst, ri, n_ful, phases.len(), ch, dl));
